@@ -22,6 +22,12 @@ def adversarial():
                 ["dropproxy", 1], ["quiesce"], ["dropproxy", 2], ["dropproxy", 3], ["quiesce"], ["dropstream", 1], ["quiesce"]])
     # clone then drop (known deviation of C20: the clone is not counted)
     out.append([["sub", 1, "A", 2], ["quiesce"], ["clone", 1, 2], ["quiesce"], ["dropstream", 2], ["quiesce"], ["dropstream", 1], ["quiesce"]])
+    # rules without a type key are signal subscriptions too (they match every message type); rules for another message
+    # type are not; equal member, three different rules
+    out.append([["sub", 1, "~A", 2], ["quiesce"], ["sub", 2, "A", 2], ["sub", 3, "^A", 2], ["quiesce"], ["dropstream", 1], ["quiesce"],
+                ["sub", 4, "~A", 2], ["quiesce"], ["dropstream", 4], ["dropstream", 3], ["quiesce"], ["dropstream", 2], ["quiesce"]])
+    out.append([["sub", 1, "~B", 2], ["sub", 2, "~B", 2], ["quiesce"], ["asyncdrop", 1], ["quiesce"], ["asyncdrop", 2], ["quiesce"],
+                ["sub", 3, "~B", 2], ["quiesce"], ["dropstream", 3], ["quiesce"]])
     return out
 
 
@@ -31,7 +37,7 @@ def random_steps(rnd):
     for _ in range(rnd.randint(8, 40)):
         r = rnd.random()
         if r < 0.3 and nxt <= 7:
-            steps += [["sub", nxt, rnd.choice(["A", "A", "B", "C"]), 2], ["polls", nxt]]
+            steps += [["sub", nxt, rnd.choice(["A", "A", "B", "C", "~A", "~B", "^A"]), 2], ["polls", nxt]]
             live.append(nxt)
             nxt += 1
         elif r < 0.5 and live:
